@@ -674,7 +674,7 @@ def replay(ctx, data):
         print(json.dumps(data, indent=1))
     return 0
 
-TECHNIQUE = "Coq proof (induction over the item stream, all chunkings) + differential correspondence with the real sourcemapx.Filter and compiled programs"
+TECHNIQUE = "Coq proof (induction over the item stream, all chunkings; induction over mapping lists for the VLQ/mappings codec) + differential correspondence with the real sourcemapx.Filter, the linked source-map encoder/decoder and compiled programs"
 LEVEL_TEXT = ("Machine-checked theorems over an executable model of Hint.WriteTo/FindHint/ReadHint/Filter.Write: for every stream and every "
               "chunking that does not split a hint the output is the code with hints erased, contains no 0x08, and every mapping is the position "
               "where the following code starts, is in range and monotone; hint round trip for all payloads <= 65535 bytes. The model is tied to "
